@@ -24,20 +24,12 @@ THEOREMS = [
     "PV.C18.format_bool_eq_partial",
     "PV.C18.no_panic_str",
     "PV.C18.no_panic_partial",
-    "PV.C18.no_panic_fails",
     "PV.C18.format_eq_fails",
     "PV.C18.dev_z_flag",
     "PV.C18.dev_c_surrogate",
-    "PV.C18.dev_str_eq_align",
-    "PV.C18.dev_str_zero_flag",
-    "PV.C18.dev_precision_over_i32",
     "PV.C18.dev_z_flag_float",
     "PV.C18.dev_int_above_f64max",
     "PV.C18.dev_float_tie",
-    "PV.C18.dev_float_alt_no_point",
-    "PV.C18.dev_float_no_dot_zero",
-    "PV.C18.dev_float_percent_overflow",
-    "PV.C18.dev_precision_over_u16",
     "PV.C18.repaired_conv_prefix",
     "PV.C18.repaired_group_exp",
     "PV.C18.repaired_group_exp_float",
@@ -53,6 +45,13 @@ THEOREMS = [
     "PV.C18.repaired_c_nonascii_width",
     "PV.C18.repaired_c_surrogate_no_panic",
     "PV.C18.repaired_width_limit",
+    "PV.C18.repaired_precision_over_u16",
+    "PV.C18.repaired_float_percent_overflow",
+    "PV.C18.repaired_float_alt_no_point",
+    "PV.C18.repaired_float_no_dot_zero",
+    "PV.C18.repaired_str_eq_align",
+    "PV.C18.repaired_str_zero_flag",
+    "PV.C18.repaired_precision_over_i32",
 ]
 TRUSTED = [
     "Lean 4.33.0 kernel; axioms limited to propext, Classical.choice, Quot.sound",
@@ -62,7 +61,7 @@ TRUSTED = [
     "float text: PV.C17 model of literal/src/float.rs on top of the exact decimal arithmetic PV.Dec (contract of Rust "
     "{:.N} / {:.Ne} / {:e} / Display on f64), sampled here, verified nowhere",
     "contracts of malachite BigInt::to_str_radix, BigInt::to_f64 (nearest, None beyond f64::MAX), f64 * 100.0, "
-    "char::from_u32, String::truncate/insert, format! precision limit u16::MAX (rustc 1.95)",
+    "char::from_u32, String::truncate/insert",
     "lean/PV/C18/Spec.lean as the reading of the language reference (validated against CPython 3.11.7 on every run: "
     "tools/props/c18.py py_parse_spec + CPython format() is the oracle)",
     "tools/props/c18.py (generators, classification of known findings), harness/src/bin/pvh_c18.rs (reads the parsed "
@@ -329,17 +328,7 @@ def _shapes(p, eff, kind, value, out):
             return
         if p.sign or p.alt:
             return                      # rejected by both
-        if p.align == "=":
-            add("str-eq-align-accepted")
-        w = p.width or 0
-        if p.prec is not None and 2 ** 31 <= p.prec < 2 ** 63:
-            add("precision-over-i32-rejected")
-        kept = len(value) if p.prec is None else min(len(value), p.prec)
-        if p.zero and p.fill is None and p.align is None and w > kept:
-            add("str-zero-flag-pads-left")
         return
-    if floaty and p.prec is not None and p.prec > 65532:
-        add("precision-over-65535-panic")
     if kind in "ib" and floaty and F64_MAX_INT < abs(int(value)) < 2 ** 1024 - 2 ** 970:
         add("int-float-above-max-rejected")
     if kind in "ib" and p.type == "c":
@@ -352,29 +341,14 @@ def _shapes(p, eff, kind, value, out):
         v = value
         if p.prec is None and _repr_tie_even(v):
             add("float-repr-tie-rounds-up")
-        if p.prec is None and p.alt and "e" in repr(v) and "." not in repr(v):
-            add("float-default-type-alt-no-point")
-        if p.prec is not None and p.prec >= 1 and not p.alt:
-            t = format(abs(v), ".%dg" % min(p.prec, 800))
-            if "." not in t and "e" not in t:
-                add("float-default-type-precision-no-dot-zero")
-    if kind == "f" and p.type == "%" and p.alt and p.prec == 0 and math.isfinite(value) and math.isinf(value * 100.0):
-        add("float-percent-overflow-alt")
 
 
 # which observed failures a shape explains (so that a different failure on the same input is reported)
 _EXPLAINS = {
     "z-flag-rejected": lambda got, exp: got == "err" and not exp == "err",
-    "str-eq-align-accepted": lambda got, exp: exp == "err" and got.startswith("ok:"),
-    "str-zero-flag-pads-left": lambda got, exp: got.startswith("ok:"),
     "int-c-surrogate-rejected": lambda got, exp: got == "err" and exp != "err",  # a Rust String cannot hold a lone surrogate
     "int-float-above-max-rejected": lambda got, exp: got == "err" and exp != "err",
-    "float-default-type-alt-no-point": lambda got, exp: got.startswith("ok:") and exp != "err",
     "float-repr-tie-rounds-up": lambda got, exp: got.startswith("ok:") and exp != "err",
-    "float-default-type-precision-no-dot-zero": lambda got, exp: got.startswith("ok:") and exp != "err",
-    "float-percent-overflow-alt": lambda got, exp: got.startswith("ok:") and exp != "err",
-    "precision-over-65535-panic": lambda got, exp: got == "panic",
-    "precision-over-i32-rejected": lambda got, exp: got == "err" and exp != "err",
 }
 
 
@@ -452,15 +426,8 @@ def classify(req, impl_out, model_out, failure):
 PROBES = [
     # (key, spec, value)
     ("z-flag-rejected", "z.1f", -0.0),
-    ("str-eq-align-accepted", "=5", "a"),
-    ("str-zero-flag-pads-left", "05", "a"),
     ("int-float-above-max-rejected", "e", F64_MAX_INT + 1),
-    ("float-default-type-alt-no-point", "#", 1e100),
     ("float-repr-tie-rounds-up", "", 600377706905611.2),
-    ("float-default-type-precision-no-dot-zero", ".5", 1.0),
-    ("float-percent-overflow-alt", "#.0%", 1.7976931348623157e308),
-    ("precision-over-65535-panic", ".65536f", 1.0),
-    ("precision-over-i32-rejected", ".2147483648", "a"),
     ("int-c-surrogate-rejected", "c", 0xD800),
 ]
 
@@ -494,6 +461,40 @@ REGRESSION = [
     ("18446744073709551615", 1), ("18446744073709551616", 1), (".2147483647", "a"), (".2147483648", 1.0), (".9223372036854775808", "a"),
     ("2147483648", 1), ("9223372036854775808", 1), (",_", 1), ("_,", 1), (",,", 1), (".", 1), ("0", 1), ("00", 1),
     ("g", True), ("e", False), ("c", True), ("s", True), ("N", True), ("n", 1234567), ("n", 1234.5),
+    # precision-over-65535-panic, fixed in /repo by 1c70d07 (float.rs asks format! for at most 1100 digits):
+    # precisions around format!'s u16 limit and around the digit clamp, on the doubles with the most digits
+    (".65536f", 1.0), (".65534e", 1.5), (".65535e", 1.5), (".65536e", 1.5), (".65535g", 1e-5), (".65536g", 1e-5),
+    (".65533g", 0.0001), (".65534g", 0.0001), (".65536G", 1.5), (".65536%", 0.125), (".65535%", 0.125),
+    (".65536", 0.1), ("#.65536", 1e-7), (".65536n", 0.1), (",.65536f", 1234567.5), ("070010.70000f", -1.5),
+    (".70000f", 0.1), (".70000e", 5e-324), (".70000g", 0.1), (".70000%", 0.5), (".70000", 123.456), ("_.70000E", 1e22),
+    (".65536f", 3), (".65536e", True), (".65536%", 7), (".65536f", float("inf")), (".65536e", float("nan")),
+    (".1073f", 5e-324), (".1074f", 5e-324), (".1075f", 5e-324), (".1099e", 5e-324), (".1100e", 5e-324), (".1101e", 5e-324),
+    (".1101g", 5e-324), (".1102g", 2.225073858507201e-308), (".766e", 2.225073858507201e-308),
+    (".767e", 2.225073858507201e-308), (".1100f", 2.225073858507201e-308), (".1101f", 1.7976931348623157e308),
+    (".1101e", 1.7976931348623157e308), (".1100%", 5e-324), (".1101%", 5e-324), (".1102", 5e-324), ("#.1101g", 0.1),
+    (".199999f", 0.1),
+    # float-percent-overflow-alt, fixed by ca95121
+    ("#.0%", 1.7976931348623157e308), ("#.0%", 1.7976931348623157e306), ("#.0%", 1.797693134862316e306), (".0%", 1.7976931348623157e308),
+    ("#%", 1.7976931348623157e308), ("#.0%", 0.5), ("#.0%", -1.7976931348623157e308), ("#010.0%", 1e308), ("#,.0%", 1e307), ("#.0%", 10 ** 307),
+    # float-default-type-alt-no-point, fixed by dabde2e
+    ("#", 1e100), ("#", 1.5e100), ("#", 1e16), ("#", 1e-5), ("#", 1.0), ("#", 0.0), ("#", -1e16), ("#,", 1e16), ("#,", 12345678.0),
+    ("#010", 1e22), ("#", float("inf")), ("#", float("nan")), ("+#", 2e-7), ("#", 9999999999999998.0), ("#_", 1e16), ("#", 123456789012345680.0),
+    # float-default-type-precision-no-dot-zero, fixed by 6610c77
+    (".5", 1.0), (".5", 100.0), (".5", 12345.0), (".5", 1234.0), ("#.5", 1.0), (".1", 1.0), ("#.1", 1.0), (".3", 0.0), (".2", 1.0), (".3", 10.0),
+    ("#.3", 10.0), (",.6", 1234.0), (".1", 0.5), (".2", 9.96), (".17", 1.0), (".3", -100.0), ("08.3", 10.0), (".6", 99999.5), (".6", 999999.5),
+    (".16", 1e15), (".17", 1e16), (".1", 9.5), ("_.9", 12345678.0), (".5", 1e-5), (".5", 0.0001), ("#.5", 0.0001),
+    # str-eq-align-accepted / str-zero-flag-pads-left, fixed by 9bdbe36 (the 0 flag no longer implies '=' at parse time)
+    ("=5", "a"), ("05", "a"), ("0=5", "a"), ("x=5", "a"), ("=", "a"), ("=5s", "a"), ("0<5", "a"), ("0>5", "a"), ("0^5", "a"),
+    ("<05", "a"), (">05", "a"), ("^05", "a"), ("005", "a"), ("05.1", "abc"), ("03", "abc"), ("07s", "é日"), ("0", "a"),
+    ("05", 1), ("05", -1), ("<05", -1), (">05", -1), ("^05", -1), ("=5", -1), ("x=5", -1), ("0=5", -1), ("+05", 7),
+    ("05", True), ("05", 1.5), ("05", -1.5), ("06", float("-inf")), ("06", float("nan")), ("<06", -1.5), ("08,", 1234),
+    ("<08,", 1234), ("08,.1f", -1234.5), ("05c", 65), ("05x", 255), ("#06x", 255), ("05%", 0.5), ("=6e", 1.0),
+    # precision-over-i32-rejected, fixed by 45bc6fb (the parser's limit is isize::MAX; floats reject above i32::MAX)
+    (".2147483648", "a"), (".2147483648s", "abc"), (".9223372036854775807", "a"), (".9223372036854775808", "a"),
+    (".2147483648f", 1.0), (".2147483648", 1.0), (".2147483648", 1), (".2147483648d", 1), (".2147483648f", 1),
+    (".2147483648e", True), (",.2147483648s", "a"), (".2147483648c", 65), (".2147483648x", 1.0), (".2147483648%", 0.5),
+    (".2147483648g", float("inf")), (".2147483648", float("nan")), (".2147483647s", "é日x"), ("5.4294967296", "ab"),
+    (".18446744073709551615", "a"), (".18446744073709551616", "a"),
 ]
 
 
